@@ -50,7 +50,7 @@ def r1(ctx, prog, A):
                    'mutex state is right on every path and in every calling context' if not v else '; '.join(
                        '%s: %s' % x for x in v))
     ctx.floor('lock operations', len(e.lock_sites['lock']), 8)
-    ctx.floor('unlock operations', len(e.lock_sites['unlock']), 10)
+    ctx.floor('unlock operations', len(e.lock_sites['unlock']), 7)
     ctx.floor('cond_wait operations', len(e.lock_sites['wait']), 3)
     sched = _mutex(e, 'sched_mutex')
     # role contracts
